@@ -193,7 +193,8 @@ PROPS["C04"] = {
              "option, observation path). Non-trivial: some key occurs in >= 2 sources, or a source is empty, or the empty key is "
              "present. distinct by FNV-1a of the serialised case."),
     "expect_tags": ["key_in_2plus_sources", "fold_depth_3plus", "empty_source", "empty_key", "user_defined_source", "merge_0",
-                    "merge_1", "merge_2", "merge_callback_failed", "dupsort_1", "dupsort_2", "path_1", "path_2", "no_sources"],
+                    "merge_1", "merge_2", "merge_callback_failed", "merge_callback_failed_without_storing",
+                    "merge_callback_failed_on_later_fold_of_a_key", "dupsort_1", "dupsort_2", "path_1", "path_2", "no_sources"],
     "assumptions": TABLE_ASSUME,
     "tiers": {
         "quick": [{"mode": "rc", "cases": 1500, "max_size": 100}],
